@@ -47,6 +47,7 @@ import (
 	"sort"
 	"strings"
 	"sync"
+	"sync/atomic"
 	"testing"
 	"testing/synctest"
 	"time"
@@ -507,6 +508,25 @@ type result struct {
 	harnessErr string
 }
 
+// cappedWriter forwards to the recording gate until a pacer has made far more downstream
+// calls than packets were written (3*packets+1000); from then on calls are only counted, so
+// that a pacer that re-sends a packet on every tick cannot make a case arbitrarily expensive.
+// The duplicates recorded up to the cap are what the oracle reports.
+type cappedWriter struct {
+	g       *obs.RTPGate
+	limit   int64
+	calls   atomic.Int64
+	dropped atomic.Int64
+}
+
+func (w *cappedWriter) Write(h *rtp.Header, payload []byte, a interceptor.Attributes) (int, error) {
+	if w.calls.Add(1) > w.limit {
+		w.dropped.Add(1)
+		return h.MarshalSize() + len(payload), nil
+	}
+	return w.g.Write(h, payload, a)
+}
+
 // ---------------------------------------------------------------------------------
 // driver
 
@@ -518,6 +538,7 @@ func run(c *vf.Case) {
 	res := &result{drainedAt: -1}
 	clk := &obs.Clock{}
 	gates := make([]*obs.RTPGate, len(s.streams))
+	next := make([]*cappedWriter, len(s.streams)) // what the pacer gets as next writer
 	res.flags = make([][]gateFlag, len(s.streams))
 	var flagMu sync.Mutex
 	for i, st := range s.streams {
@@ -537,6 +558,7 @@ func run(c *vf.Case) {
 			})
 		}
 		gates[i] = g
+		next[i] = &cappedWriter{g: g, limit: int64(3*s.npk + 1000)}
 	}
 	res.recs = make([][]rec, s.writers)
 	for w := range res.recs {
@@ -568,14 +590,14 @@ func run(c *vf.Case) {
 				return
 			}
 			for i, st := range s.streams {
-				writers = append(writers, ic.BindLocalStream(&interceptor.StreamInfo{SSRC: st.ssrc}, gates[i]))
+				writers = append(writers, ic.BindLocalStream(&interceptor.StreamInfo{SSRC: st.ssrc}, next[i]))
 			}
 			setRate = func(v int) { f.SetRate("c17", v) }
 			closeFn = ic.Close
 		case kLeaky:
 			p := gcc.NewLeakyBucketPacer(s.rate0)
 			for i, st := range s.streams {
-				p.AddStream(st.ssrc, gates[i])
+				p.AddStream(st.ssrc, next[i])
 				writers = append(writers, p)
 			}
 			setRate = p.SetTargetBitrate
@@ -583,7 +605,7 @@ func run(c *vf.Case) {
 		case kNoOp:
 			p := gcc.NewNoOpPacer()
 			for i, st := range s.streams {
-				p.AddStream(st.ssrc, gates[i])
+				p.AddStream(st.ssrc, next[i])
 				writers = append(writers, p)
 			}
 			unknown = p
@@ -604,7 +626,7 @@ func run(c *vf.Case) {
 				if st.twccID != 0 {
 					info.RTPHeaderExtensions = []interceptor.RTPHeaderExtension{{URI: twccURI, ID: int(st.twccID)}}
 				}
-				w := bwe.AddStream(info, gates[i])
+				w := bwe.AddStream(info, next[i])
 				writers = append(writers, w)
 				unknown = w
 			}
@@ -747,6 +769,9 @@ func run(c *vf.Case) {
 	if res.harnessErr != "" {
 		c.Inconclusive("harness: %s", res.harnessErr)
 		return
+	}
+	for _, w := range next {
+		c.Add("downstream_calls_beyond_recording_cap", w.dropped.Load())
 	}
 	decide(c, s, res)
 }
